@@ -188,6 +188,40 @@ def los_jobs(rng, nterr, steps, every_observer=True, sizes=SIZES):
     return jobs
 
 
+BIG_SIZES = [(9, 9), (11, 11), (13, 13), (9, 13)]
+
+
+def big_terrain(rng, H, W):
+    kind = rng.choice(["bigspikes", "bigspikes", "bigcone", "bigrough", "bigrandom"])
+    if kind == "bigspikes":
+        t = [[0] * W for _ in range(H)]
+        for _ in range(rng.randrange(3, H * W // 3)):
+            t[rng.randrange(H)][rng.randrange(W)] = rng.choice([1, 2, 3, 5, 8])
+    elif kind == "bigcone":
+        cr, cc = rng.randrange(H), rng.randrange(W)
+        t = [[-(abs(r - cr) + abs(c - cc)) + rng.choice([0, 0, 0, 3, 6]) for c in range(W)] for r in range(H)]
+    elif kind == "bigrough":
+        t = [[rng.randrange(0, 12) for _ in range(W)] for _ in range(H)]
+    else:
+        t = [[rng.choice([0, 0, 1, 2, 3, 5]) for _ in range(W)] for _ in range(H)]
+    return kind, t
+
+
+def big_jobs(rng, nterr):
+    """larger rasters: the status structure holds 15-30 cells, deletions of inner two-child nodes and
+    rotations with non-trivial subtrees happen in every sweep"""
+    jobs = []
+    for i in range(nterr):
+        H, W = rng.choice(BIG_SIZES)
+        kind, terr = big_terrain(rng, H, W)
+        for _ in range(2):
+            vr, vc = rng.randrange(H), rng.randrange(W)
+            cell = rng.choice([(1, 1), (1, 1), (1, 1), (2, 1), (1, 3)])
+            jobs.append(los_job(rng, H, W, terr, vr, vc, cell, rng.choice([0, 1, 2.5, 5]), rng.choice(TGT),
+                                False, kind))
+    return jobs
+
+
 def strip_los(c):
     return {k: c[k] for k in ("H", "W", "vr", "vc", "ew", "ns", "cells", "blocks", "svr", "svc", "sew", "sns",
                               "order", "ops")}
@@ -214,6 +248,7 @@ def handle_los(ctx, cases, mode):
         ex = (ctx.judge_extra.get(i) or "|0").split("|")
         nl = int(ex[1]) if len(ex) > 1 and ex[1].isdigit() else 0
         leaned += nl
+        c["_clause"], c["_leaned"] = cl, nl
         if nl:
             bk = ctx.extra.setdefault("borderline_cells_by_terrain_kind", {})
             bk[c["job"]["tag"]] = bk.get(c["job"]["tag"], 0) + nl
@@ -281,13 +316,11 @@ def selftest(ctx, los_case, tree_case):
     for r in range(H):
         for k in range(W):
             if c["cells"][r][k]["neg1"] == 1 and not done:
+                # the case was accepted without any borderline comparison: this cell is definitely hidden
                 b = copy.deepcopy(c)
-                # make sure some candidate is a definite blocker: keep bridge, only change the observation
                 b["cells"][r][k].update({"neg1": 0, "inrange": 1, "angok": 1, "mdeg": 90000})
-                col = r * W + k
-                if any(b["blocks"][n][col] == 1 for n in range(H * W)):
-                    bad.append((b, "reported_visible_but_a_nearer_cell_hides_it"))
-                    done = True
+                bad.append((b, "reported_visible_but_a_nearer_cell_hides_it"))
+                done = True
     # (iv) wrong vertical angle
     for r in range(H):
         for k in range(W):
@@ -378,7 +411,7 @@ def run(ctx):
     if thorough:
         tree_jobs += perm_jobs(rng, 6, limit=4000)
     tree_jobs += sim_jobs(ctx, rng, ctx.pick(100, 1500), ctx.pick(40, 60), 12)
-    comp_jobs = los_jobs(rng, ctx.pick(14, 160), steps=False)
+    comp_jobs = los_jobs(rng, ctx.pick(12, 160), steps=False) + big_jobs(rng, ctx.pick(60, 800))
     interp_jobs = los_jobs(rng, ctx.pick(40, 400), steps=True, every_observer=False) + \
         los_jobs(rng, ctx.pick(4, 30), steps=True, every_observer=True, sizes=[(3, 3), (4, 5), (5, 5)])
     results, errors = {}, {}
@@ -485,9 +518,10 @@ def run_checks(ctx, rng, thorough, table_jobs, tree_jobs, wait):
                     "output": c["raw"]})
 
     # ---------------- vacuity guard of the judges
-    cand = [c for c in ok2 if any(o["neg1"] == 1 for row in c["cells"] for o in row)
-            and sum(1 for e in c["tree"]["events"] if e["op"] == "I") >= 3]
-    if cand:
+    cand = [c for c in ok2 if c.get("_clause") == "ok" and c.get("_leaned") == 0
+            and any(o["neg1"] == 1 for row in c["cells"] for o in row)
+            and any(o["neg1"] == 0 and o["is180"] == 0 for row in c["cells"] for o in row)]
+    if cand and not ctx.violations:
         selftest(ctx, cand[0], tree_cases[0])
 
 
